@@ -16,7 +16,7 @@ SHAPES = ["monotone", "alternating", "flat", "random"]
 def shape_stream(r, shape, n):
     xs = []
     for k in range(n):
-        u = r.random()
+        u = r.random() if shape == "random" else 0.5
         if shape == "monotone":
             x = 100.0 + 0.5 * k
         elif shape == "alternating":
